@@ -176,6 +176,9 @@ Scenarios ==
          lp \in Locals, s \in SETTERS, f \in FORMS}
   \cup {[kind |-> "helo", local |-> <<97>>, setter |-> "To", form |-> "plain", helo |-> h, dsn |-> "off"] : h \in HELOS}
   \cup {[kind |-> "rawhelo", local |-> <<97>>, setter |-> "To", form |-> "plain", helo |-> h, dsn |-> "off"] : h \in HELOS}
+  \* the smtp package used directly: Mail / Rcpt with a value that carries a line break
+  \cup {[kind |-> "rawaddr", local |-> <<97>>, setter |-> st, form |-> "plain", helo |-> h, dsn |-> "off"] :
+           h \in HELOS \cap {"plain", "cr", "lf", "crlf"}, st \in {"From", "To"}}
   \cup {[kind |-> "dsn", local |-> <<97>>, setter |-> "To", form |-> "plain", helo |-> "plain", dsn |-> d] : d \in DSNS}
 
 Init == sc \in Scenarios /\ pc = "gen"
